@@ -521,6 +521,39 @@ def _w_custom(task):
                 if got != sum(want) or list(sbc) != want:
                     acc.fail("parsimony_score[user-alphabet].minimum", key, "score %r (per character %r); with P={0,1}, Q={P,2}, R={2,P}, W={1,2} the minimum "
                              "number of changes is %r" % (got, sbc, want), witness, n)
+    # (c) the two-state alphabets built with their options: BinaryStateAlphabet / RestrictionSitesStateAlphabet / InfiniteSitesStateAlphabet
+    #     x allow_gaps x allow_missing (a gap without a missing-data state included), every column over the symbols the alphabet then has
+    from dendropy.datamodel import charstatemodel as CSM
+    for cname in ("BinaryStateAlphabet", "RestrictionSitesStateAlphabet", "InfiniteSitesStateAlphabet"):
+        for ag in (False, True):
+            for am in (False, True):
+                have = "01" + ("-" if ag else "") + ("?" if am else "")
+                if first not in have:
+                    continue
+                try:
+                    sa3 = getattr(CSM, cname)(allow_gaps=ag, allow_missing=am)
+                except Exception as e:
+                    acc.fail("parsimony_score[two-state-alphabet].raises", "%s(allow_gaps=%r, allow_missing=%r)" % (cname, ag, am), "%s: %s" % (type(e).__name__, e),
+                             dict(custom="two-state", cls=cname, allow_gaps=ag, allow_missing=am), n)
+                    continue
+                for rest in itertools.product(have, repeat=n - 1):
+                    col = (first,) + rest
+                    rows = dict((lab, col[i]) for i, lab in enumerate(labels))
+                    for gap in (True, False):
+                        kind, t = forms[(ag + 2 * am + gap) % len(forms)]
+                        tstr = P.tree_str(t)
+                        want = custom_min(t, rows, "01", gap)
+                        key = "two-state|%s(gaps=%d,missing=%d)|gap_missing=%d|tree=%s|rows=%s" % (cname, ag, am, gap, tstr, rows_str(rows))
+                        witness = dict(custom="two-state", cls=cname, allow_gaps=ag, allow_missing=am, gap=gap, tree=tstr, rows=rows_str(rows))
+                        acc.case(key, want[0] >= 1)
+                        try:
+                            got, sbc = _custom_score(build(t, taxa), taxa, rows, sa3, gap)
+                        except Exception as e:
+                            acc.fail("parsimony_score[two-state-alphabet].raises", key, "%s: %s" % (type(e).__name__, e), witness, n)
+                            continue
+                        if got != sum(want) or list(sbc) != want:
+                            acc.fail("parsimony_score[two-state-alphabet].minimum", key, "%s(allow_gaps=%r, allow_missing=%r), gaps_as_missing=%r: score %r (per character %r); "
+                                     "the minimum number of changes is %r" % (cname, ag, am, gap, got, sbc, want), witness, n)
     # (b) one tree, one alphabet object: score over {0,1,?}, add the fundamental state 2, score a matrix that uses 2 and ?
     for rest in itertools.product("012?", repeat=n - 1):
         if first not in "012?":
@@ -655,6 +688,8 @@ def t2(ctx):
     ctx.scope(sc, rule="a standard alphabet with user-defined codes, two of them defined from ANOTHER code (P={0,1}, Q={P,2}, R={2,P} polymorphic, "
                        "W={1,2}): every one-column matrix over {%s} on 3 leaves x 4 forms x both gap modes; and an alphabet object that grows "
                        "(new fundamental state + compile_lookup_mappings) between two scoring calls on one tree: every column over {0,1,2,?}; "
+                       "the two-state alphabets (binary, restriction sites, infinite sites) built with allow_gaps x allow_missing: every column over "
+                       "the symbols the alphabet then has, both gap modes; "
                        "non-trivial = the column needs >= 1 change" % ",".join(cs), exhaustive=True)
     tasks = [(c, cs) for c in cs]
     _gather(ctx, sc, tasks, pmap(_w_custom, tasks, chunksize=1), cand, nf)
@@ -686,6 +721,10 @@ def replay(ctx, rec):
         want = custom_min(t, rows, "012", w["gap"])
         if w["custom"] == "codes":
             got, sbc = _custom_score(build(t, taxa), taxa, rows, custom_alphabet(), w["gap"])
+        elif w["custom"] == "two-state":
+            from dendropy.datamodel import charstatemodel as CSM
+            want = custom_min(t, rows, "01", w["gap"])
+            got, sbc = _custom_score(build(t, taxa), taxa, rows, getattr(CSM, w["cls"])(allow_gaps=w["allow_gaps"], allow_missing=w["allow_missing"]), w["gap"])
         else:
             sa2 = custom_alphabet("01", codes=False)
             tree = build(t, taxa)
